@@ -394,6 +394,7 @@ def o8(h, st):
 # O9 split / stack / trim / reindex -----------------------------------------------------------------------------------
 
 IDX_PATTERNS = [[0, 1, 2], [0, 2, 5], [4, 1, 3], [3, 3 + 1, 0]]
+GAP_PATTERNS = [[1, 8, 16], [8, 1, 3], [0, 2, 5], [33, 1, 64]]
 
 
 def o9_structures(tier):
@@ -444,6 +445,18 @@ def o9b(h, st):
     c2 = mk_circuit(gates, n_qubits=3)
     e = h.raises(lambda: h.call(C, "Circuit.reindex_qubits", c2, [0, 1]), ValueError)
     h.check("length mismatch raises ValueError", e is not None)
+    # circuits whose used qubits have GAPS (no fixed width): the k-th entry of new_indices is for the k-th used qubit in increasing order,
+    # whatever order the index set happens to iterate in
+    for pat in GAP_PATTERNS:
+        g3 = relabel(build(h, st["gates"]), {0: pat[0], 1: pat[1], 2: pat[2]})
+        c3 = mk_circuit(g3)
+        used = sorted({q for g in g3 for q in g.target + (g.control or [])})
+        new = perm[:len(used)]
+        exp3 = relabel(g3, {q: new[k] for k, q in enumerate(used)})
+        h.call(C, "Circuit.reindex_qubits", c3, list(new))
+        h.check(f"used qubits {used}: k-th used qubit (increasing order) -> new_indices[k]", snapshot([g.__dict__ for g in c3._gates]) == snapshot([g.__dict__ for g in exp3]),
+                detail=f"{c3._gates} expected {exp3}")
+        h.check_close("width == max(new)+1 (gaps)", h.getattr(c3, "width"), max(new) + 1)
     h.done()
 
 
